@@ -348,7 +348,7 @@ pub struct ReplayFile {
     pub case: Value,
 }
 
-fn write_replay(prop: &str, sig: &str, msg: &str, case: &Value) -> PathBuf {
+pub fn write_replay(prop: &str, sig: &str, msg: &str, case: &Value) -> PathBuf {
     let dir = verif_dir().join("replays");
     std::fs::create_dir_all(&dir).ok();
     let body = serde_json::to_string(case).unwrap();
